@@ -150,12 +150,10 @@ func (es *extensionsState) OnNewOutboundStream(id peer.ID, helloPacket *RPC) *RP
 }
 
 func (es *extensionsState) OnClosedOutboundStream(id peer.ID) {
-	_, recvdExt := es.peerExtensions[id]
-	_, sentExt := es.sentExtensions[id]
-	if recvdExt && sentExt {
-		// Add peer was previously called, so we need to call remove peer
-		es.extensionsOnClosedOutboundStream(id)
-	}
+	// The extensions are told about every closed stream, whatever was negotiated and in
+	// whatever order the two directions closed: the partial-messages extension creates
+	// per-peer state from subscription flags and RPCs, not only after the handshake.
+	es.extensionsOnClosedOutboundStream(id)
 	delete(es.sentExtensions, id)
 	if len(es.sentExtensions) == 0 {
 		es.sentExtensions = make(map[peer.ID]struct{})
@@ -170,9 +168,10 @@ func (es *extensionsState) extensionsOnNewOutboundStream(id peer.ID) {
 	}
 }
 
-// extensionsOnClosedOutboundStream is always called after extensionsOnNewOutboundStream.
+// extensionsOnClosedOutboundStream releases what the extensions keep for the peer; it may be
+// called for a peer that extensionsOnNewOutboundStream was never called for.
 func (es *extensionsState) extensionsOnClosedOutboundStream(id peer.ID) {
-	if es.myExtensions.PartialMessages && es.peerExtensions[id].PartialMessages {
+	if es.myExtensions.PartialMessages {
 		es.partialMessagesExtension.OnClosedOutboundStream(id)
 	}
 }
